@@ -20,6 +20,17 @@ HARNESS = os.path.join(VERIF, "harness")
 WORK = os.path.join(VERIF, "work")
 EVID = os.path.join(VERIF, "evidence")
 REPO = "/repo"
+# Development aid (never used by a registered command): VERIF_ALT_REPO=<a scratch checkout of cedar, e.g. one carrying a
+# seeded change> runs the same check against that tree with a private copy of the harness, work and evidence
+# directories under /tmp/verif-alt, so that /repo, /verif/work and /verif/evidence are left alone.
+ALT_REPO = os.environ.get("VERIF_ALT_REPO")
+if ALT_REPO:
+    REPO = ALT_REPO.rstrip("/")
+    _ALT = "/tmp/verif-alt"
+    HARNESS_SRC, HARNESS = HARNESS, os.path.join(_ALT, "harness")
+    WORK, EVID = os.path.join(_ALT, "work"), os.path.join(_ALT, "evidence")
+    for _d in (HARNESS, WORK, EVID):
+        os.makedirs(_d, exist_ok=True)
 CONFORM = os.path.join(HARNESS, "target", "release", "conform")
 NCPU = os.cpu_count() or 4
 
@@ -48,6 +59,14 @@ def workdir(prop):
 # ----------------------------------------------------------------- harness
 def build_harness(bins=("conform",)):
     """(re)build the harness against /repo's current working tree"""
+    if ALT_REPO:
+        subprocess.run(["rsync", "-a", "--delete", "--exclude", "target", "--exclude", "target-cli", "--exclude", "Cargo.lock",
+                        HARNESS_SRC + "/", HARNESS + "/"], check=True)
+        toml = os.path.join(HARNESS, "conform", "Cargo.toml")
+        with open(toml) as f:
+            txt = f.read().replace('"/repo/', '"%s/' % REPO)
+        with open(toml, "w") as f:
+            f.write(txt)
     lock_src = os.path.join(REPO, "Cargo.lock")
     lock_dst = os.path.join(HARNESS, "Cargo.lock")
     if not os.path.exists(lock_dst):
